@@ -21,11 +21,14 @@ RULE = ('cases = generated source history (undo records, deletions, un-creations
         'terminate within 200 + 50*file_size/8096 raw reads, contain every transaction that ends before the damage '
         'unchanged, and output only input transactions in input order with increasing tids; evaluations = storages '
         'compared; non-trivial = (copy/recover) source with >= 1 back-pointer record or un-creation, (damage) damage '
-        'starting inside the 2nd..last transaction with >= 1 transaction after it; distinct by case hash')
-ASSUMPTIONS = ['blob payloads are not part of these sources (blob copy is exercised in C13)',
+        'starting inside the 2nd..last transaction with >= 1 transaction after it, (blobcopy: a generated blob history '
+        '(C13 blob world) on FileStorage+blob_dir or BlobStorage(MappingStorage) copied into a FileStorage with blob_dir; records compared, '
+        'every blob revision read through loadBlob on both sides, one file per blob record, no temporary files) a '
+        'rewritten blob plus an undo or pack; distinct by case hash')
+ASSUMPTIONS = ['blob sources are copied (mode blobcopy); fsrecover has no blob handling and is run on data files only',
                'a transaction overlapping the damaged region may be dropped or altered (don\'t care)',
                'termination is decided by a raw-read budget, never by time']
-BUDGET = {'quick': {'examples': 700, 'workers': 8},
+BUDGET = {'quick': {'examples': 2000, 'workers': 8},
           'thorough': {'examples': 15000, 'workers': 16}}
 CAPS_FS = programs.CAPS['fs']
 
@@ -47,9 +50,27 @@ def strategy(tier):
                     allow |= {'pack'}
             if kind == 'demo-fs':
                 allow |= {'undo'}
+            free = programs.program_strategy(kind, n, allow)
+            if kind == 'fs':
+                # undo records pointing into a transaction that undoes several transactions of one
+                # object (two records of that object in one transaction)
+                upd = st.tuples(st.just('txn'), st.just([0, 0, 0]),
+                                st.lists(st.tuples(st.just('upd'), st.integers(0, 1), st.sampled_from([0, 1, 5])).map(list),
+                                         min_size=1, max_size=2), st.just(['finish'])).map(list)
+                multi = st.tuples(st.just('txn'), st.just([0, 1, 0]),
+                                  st.lists(st.tuples(st.just('undo'), st.integers(0, 3)).map(list), min_size=2, max_size=3),
+                                  st.just(['finish'])).map(list)
+                single = st.tuples(st.just('txn'), st.just([0, 2, 0]),
+                                   st.lists(st.tuples(st.just('undo'), st.integers(0, 1)).map(list), min_size=1, max_size=1),
+                                   st.just(['finish'])).map(list)
+                new = st.just(['txn', [0, 0, 0], [['new', 1], ['new', 5]], ['finish']])
+                phased = st.tuples(new, upd, upd, st.one_of(upd, multi), multi, st.one_of(upd, single), single,
+                                   st.lists(st.one_of(upd, single, multi), max_size=3)).map(
+                    lambda t: [t[0], t[1], t[2], t[3], t[4], t[5], t[6]] + t[7])
+                free = st.one_of(free, free, phased)
             return st.fixed_dictionaries({
                 'mode': st.just(mode), 'kind': st.just(kind),
-                'prog': programs.program_strategy(kind, n, allow),
+                'prog': free,
                 'dpos': st.integers(0, 10 ** 6), 'dlen': st.sampled_from([1, 2, 7, 8, 9, 23, 40, 100, 1000, 4096]),
                 'dkind': st.sampled_from(['zero', 'random', 'truncate', 'truncate']),
                 'dbyte': st.integers(0, 255),
@@ -57,7 +78,108 @@ def strategy(tier):
                 'range': st.tuples(st.integers(0, 8), st.integers(0, 8)).map(list),
             })
         return st.sampled_from(kinds).flatmap(prog)
-    return st.sampled_from(['copy', 'copy', 'recover', 'damage', 'damage', 'damage']).flatmap(build)
+    plain = st.sampled_from(['copy', 'copy', 'recover', 'damage', 'damage', 'damage']).flatmap(build)
+    return st.one_of(plain, plain, plain, plain, blob_strategy(tier))
+
+
+def blob_strategy(tier):
+    """blob histories (C13's blob world: rewrite, append, consume, undo, pack, failed commits) copied into
+    another blob-enabled storage"""
+    from checks import c13_blobs
+    free = c13_blobs.strategy(tier).map(lambda c: c['ops'])
+    i = st.integers(0, 1)
+    dd = st.integers(0, len(c13_blobs.DATA) - 1)
+    wr = st.tuples(st.just('write'), i, st.sampled_from(['w', 'a', 'r+']), dd).map(list)
+    # the shapes the statement names: undo (and redo) of a blob rewrite, optionally packed afterwards
+    phased = st.tuples(wr, st.lists(wr, max_size=1), st.integers(0, 1), st.booleans(), st.lists(wr, max_size=1),
+                       st.one_of(st.just([]), st.tuples(st.just('pack'), st.integers(0, 8)).map(lambda p: [list(p)])),
+                       free).map(
+        lambda t: [t[0], ['commit']] + (t[1] + [['commit']] if t[1] else []) + [['undo', t[2]]]
+        + ([['undo', 0]] if t[3] else []) + (t[4] + [['commit']] if t[4] else []) + t[5] + t[6][:4])
+    return st.fixed_dictionaries({'mode': st.just('blobcopy'),
+                                  'src': st.sampled_from(['fs', 'fs', 'bmap']),
+                                  'dst': st.just('fs'),     # MappingStorage has no restore()
+                                  'ops': st.one_of(free, phased)})
+
+
+def blob_revisions(storage):
+    """{(oid, tid): bytes} for every blob record the storage iterates"""
+    from ZODB.blob import is_blob_record
+    out = {}
+    for t in storage.iterator():
+        for r in t:
+            if r.data and is_blob_record(r.data):
+                try:
+                    with open(storage.loadBlob(r.oid, t.tid), 'rb') as f:
+                        out[(r.oid, t.tid)] = f.read()
+                except Exception as e:    # noqa: B902  the answer is compared
+                    out[(r.oid, t.tid)] = 'raises %s' % type(e).__name__
+    return out
+
+
+def execute_blobcopy(case):
+    from checks import c13_blobs
+    from ZODB.blob import BlobStorage
+    from ZODB.FileStorage import FileStorage
+    from ZODB.MappingStorage import MappingStorage
+    out = Outcome()
+    out.evals = 0
+    clock.install()
+    locks.install()
+    clock.reset()
+    d = newdir()
+    w = c13_blobs.BlobWorld(case['src'], d, out, prop=PROPERTY)
+    try:
+        for op in (['create', 0, 2], ['create', 1, 3], ['commit']):
+            w.step(op)
+        for op in case['ops']:
+            w.step(op)
+            clock.CLOCK.advance(0.25)
+            if out.failures:
+                # a blob-world failure belongs to C13; this case only judges the copy
+                out.failures = []
+                break
+        try:
+            w.tm.abort()
+        except Exception:                 # noqa: B902
+            pass
+        dd = os.path.join(d, 'copy')
+        os.mkdir(dd)
+        if case['dst'] == 'fs':
+            dst = FileStorage(os.path.join(dd, 'Copy.fs'), blob_dir=os.path.join(dd, 'blobs'))
+        else:
+            dst = BlobStorage(os.path.join(dd, 'blobs'), MappingStorage())
+        try:
+            dst.copyTransactionsFrom(w.storage)
+            what = 'copyTransactionsFrom(blob %s -> %s)' % (case['src'], case['dst'])
+            caps = {'history', 'loadSerial', 'iterator'}
+            compare(w.storage, dst, caps, out, what, getattr(w, 'pack_tid', None))
+            if out.failures:
+                return out
+            a, b = blob_revisions(w.storage), blob_revisions(dst)
+            out.evals += 1
+            if a != b:
+                k = sorted(set(a) | set(b), key=lambda k: (k[1], k[0]))
+                k = [x for x in k if a.get(x) != b.get(x)][0]
+                out.fail((PROPERTY, 'blob-copy', 'blob-contents-differ'),
+                         '%s: blob revision oid=%s tid=%s: source %r destination %r' % (
+                             what, k[0].hex(), k[1].hex(), a.get(k, 'absent'), b.get(k, 'absent')))
+                return out
+            # exactly one committed file per blob record in the copy, nothing else
+            files = c13_blobs.list_blob_files(os.path.join(dd, 'blobs'))
+            if len(files) != len(b):
+                out.fail((PROPERTY, 'blob-copy', 'file-count'),
+                         '%s: the copy holds %d blob files for %d blob records' % (what, len(files), len(b)))
+            left = c13_blobs.tmp_leftovers(os.path.join(dd, 'blobs'))
+            if left:
+                out.fail((PROPERTY, 'blob-copy', 'tmp-leftover'), '%s: temporary files left in the copy: %r' % (what, left))
+        finally:
+            dst.close()
+    finally:
+        w.close()
+    out.label('blobcopy', 'blob-' + case['src'] + '->' + case['dst'], *['blob-' + x for x in w.labels & {'undo', 'pack', 'pack-removed-blob-file'}])
+    out.nontrivial = w.rewritten and bool(w.labels & {'undo', 'pack'})
+    return out
 
 
 def parse_layout(data):
@@ -80,10 +202,18 @@ def parse_layout(data):
     return out
 
 
-def compare(src, dst, caps, out, what):
+def compare(src, dst, caps, out, what, packed_upto=None):
     oids, tids = scan_universe(src)
     a = observe(src, oids, tids, caps)
     b = observe(dst, oids, tids, caps)
+    if packed_upto is not None:
+        # a packed source keeps some records of the packed region only as targets of later back-pointers:
+        # it iterates them but does not answer revision queries with them, the copy (which re-links
+        # them) does.  Revision queries into the packed region are pack's don't-care area (C07).
+        for k in list(a):
+            if (k[0] in ('loadBefore', 'loadSerial') and k[2] <= packed_upto) or k[0] == 'history':
+                a.pop(k)
+                b.pop(k, None)
     out.evals += 1
     df = diff_obs(a, b)
     if df:
@@ -93,6 +223,8 @@ def compare(src, dst, caps, out, what):
 
 def execute(case):
     try:
+        if case['mode'] == 'blobcopy':
+            return execute_blobcopy(case)
         return _execute(case)
     finally:
         rawio.stop()
